@@ -104,8 +104,6 @@ def classify(mod, ops, recs, out, ref):
         if last['degree'] == 3 and any(k[2] == 3 and k[1] > last['n'] for k in (recs[-1]['state']['listing'] if recs else [])):
             return 'C07:daun:degree3-crops-larger-basis-file'
     if mod == 'linbasex':
-        if raised:
-            return 'C07:linbasex:keys-assigned-before-basis-exists'
         prev = [r['op'][1] for r in earlier_calls]
         for p in prev:
             if p['orders'] != last['orders'] and ''.join(map(str, p['orders'])) == ''.join(map(str, last['orders'])):
@@ -113,6 +111,8 @@ def classify(mod, ops, recs, out, ref):
             if p['angles'] != last['angles'] and ''.join(str(a // 4) for a in p['angles']) == \
                     ''.join(str(a // 4) for a in last['angles']):
                 return 'C07:linbasex:key-collision-angles'
+        if raised:
+            return 'C07:linbasex:keys-assigned-before-basis-exists'
     if mod == 'rbasex':
         if any(o[0] == 'mutw' for o in ops):
             return 'C07:rbasex:weights-cached-by-identity'
